@@ -417,13 +417,24 @@ class CliAdapter:
     def project(self):
         c = self.c
         cb = {}
-        for ns, d in c.callbacks.items():
+        # (the ack-id counters live in their own table: a counter that
+        # survives its callbacks is state the client carries into the next
+        # connection)
+        cbs_all = dict(c.callbacks)
+        counters = getattr(c, 'ack_counters', {})
+        for ns in counters:
+            cbs_all.setdefault(ns, {})
+        for ns, d in cbs_all.items():
             out = {str(k): getattr(v, 'tag', 'call') for k, v in d.items()
                    if callable(v)}
             hi = max([self.maxid.get(ns, 0)] +
                      [k for k, v in d.items()
                       if callable(v) and isinstance(k, int)])
-            cb[ns] = {'next': hi + 1, 'out': out}
+            nxt = hi + 1
+            r = repr(counters.get(ns))
+            if r.startswith('count(') and r[6:-1].isdigit():
+                nxt = int(r[6:-1])      # the value the counter yields next
+            cb[ns] = {'next': nxt, 'out': out}
         p = c._binary_packet
         binbuf = {}
         if p:
